@@ -572,7 +572,7 @@ pub fn profile_run(seed: u64, wrapped: &mut InstructionSet, names: &[String], tw
 
 /// CLI clause: a terminating program in parser-safe text plus the lines the
 /// command-line front end must print last.
-pub fn cli_case(seed: u64, names: &[String]) -> Option<(String, [String; 3])> {
+pub fn cli_case(seed: u64, names: &[String], bin_path: &str) -> Option<(String, [String; 3])> {
     let mut r = Rng::new(derive(seed, "cli"));
     let mut ctx = GenCtx::new(names);
     ctx.exclude = excluded(names);
@@ -609,7 +609,8 @@ pub fn cli_case(seed: u64, names: &[String]) -> Option<(String, [String; 3])> {
         vec![ctx.tree(&mut r, b, 3)]
     };
     let text = render_program(&prog);
-    if text.contains("BIN") || text.len() > 4000 {
+    // the front end binds the name BIN to its own path: the library run below does the same
+    if text.len() > 4000 {
         return None;
     }
     let mut iset = InstructionSet::new();
@@ -618,7 +619,7 @@ pub fn cli_case(seed: u64, names: &[String]) -> Option<(String, [String; 3])> {
     let ok = caught(|| {
         pushr::push::parser::PushParser::parse_program(&mut st, &iset, &text);
         pushr::push::parser::PushParser::copy_to_code_stack(&mut st);
-        st.name_bindings.insert("BIN".to_string(), pushr::push::item::Item::id("pushr".into()));
+        st.name_bindings.insert("BIN".to_string(), pushr::push::item::Item::id(bin_path.to_string()));
         let cache = iset.cache();
         let mut steps = 0;
         loop {
